@@ -43,6 +43,9 @@ class Cond:
     tiers: tuple[str, ...] = ("quick", "thorough")
     shard: dict[str, Sequence[Any]] = field(default_factory=dict)
     shard_thorough: dict[str, Sequence[Any]] | None = None
+    # parameters over which a task that ran out of time is split into sub-tasks (one extra fixed value each):
+    # the parent is then decided by its sub-tasks - more time for the heavy shards only
+    split: dict[str, Sequence[Any]] | None = None
     consts: dict[str, Any] = field(default_factory=dict)
     consts_thorough: dict[str, Any] | None = None
     twin: bool = False  # reachability twin: must be REFUTED
